@@ -139,6 +139,12 @@ func (c *consumer) run() {
 			if dsim.Choose(8) == 0 {
 				dsim.Sleep(time.Duration(1+dsim.Choose(3000)) * time.Millisecond)
 			}
+		case 3: // an application that now and then does not look at its events for a long time
+			dsim.EnsureReleased("consumer-pace")
+			if dsim.Choose(10) == 0 {
+				dsim.Probe("cov:consumer-long-pause")
+				dsim.Sleep(time.Duration(5+dsim.Choose(25)) * time.Second)
+			}
 		}
 	}
 }
